@@ -26,7 +26,7 @@ LEVEL_NOTE = ('PARTIAL PROOF (category proof because Lean theorems carry the com
 TECHNIQUE = 'Lean 4 proof (induction over histories, decide +kernel on a regenerated effect table) + history-based differential correspondence'
 GEN = ['Effects', 'Extent', 'FftScratch', 'FieldDispatch', 'FieldIdx', 'FieldMerge', 'FourierWiring', 'Helper', 'Helper20', 'Hex', 'Mesh', 'PlanePhase', 'PlaneType', 'PropagateMeta', 'TiltFit', 'Util', 'Window']     # every Gen module the model, lemmas, theorems and driver ops import (transitively)
 OPS = ['C10']
-RULE = ('one table-driven smoke case per run: every public function of the effect table is called once on fixtures chosen by parameter name (those the fixtures do not fit are listed by name in UNPROVEN on every run) and the changed argument slots / global generator are compared with its table row; cases: random histories (length 5..40) of public calls — plane/pupil construction from shared arrays, attribute updates, '
+RULE = ('four seeded-repeat cases per run (seeds 0, 3, one < 2**31, one >= 2**32): shot_noise (both methods), read_noise, dark_current and rule07_dark_current with fpn_factor > 0 and power_spectrum are each called three times with identical arguments, with unrelated global-generator activity in between, and must agree bit for bit; one table-driven smoke case per run: every public function of the effect table is called once on fixtures chosen by parameter name (those the fixtures do not fit are listed by name in UNPROVEN on every run) and the changed argument slots / global generator are compared with its table row; cases: random histories (length 5..40) of public calls — plane/pupil construction from shared arrays, attribute updates, '
         'fit_tilt (copy and in-place), copy, rescale, multiply, propagate_dft/fft (with scratch), Wavefront.insert/intensity, dft2/idft2 '
         'with repeated shapes and varying offsets/shifts and out=, adc/collect_charge/bayer/pixel/pixelate/charge_diffusion, seeded and '
         'unseeded noise models, jitter/smear, util.rescale/rebin/pad/normalize_power, power_spectrum/zernike, Spectrum arithmetic/sample/'
@@ -68,7 +68,7 @@ def _refresh_unproven():
 def generate(rng, tier):
     _refresh_unproven()
     n = {'quick': 60, 'thorough': 1500, 'search': 300}[tier]
-    out = [{'kind': 'smoke'}]
+    out = [{'kind': 'smoke'}] + [{'kind': 'seeded_repeat', 'seed': sd_} for sd_ in (0, 3, int(rng.integers(1, 2**31)), int(rng.integers(2**32, 2**40)))]
     for k in range(n):
         if k % 6 == 5:
             out.append({'kind': 'confluence', 'hseed': int(rng.integers(0, 2**31)), 'segments': int(rng.integers(1, 4)),
@@ -79,9 +79,9 @@ def generate(rng, tier):
                         'focus': FOCI[(k - k // 6) % len(FOCI)]})
     return out
 
-def signature(c): return c['kind'] if c['kind'] == 'smoke' else f"{c['kind']} {c.get('hseed', c.get('which'))} {c.get('length', '')} {c.get('focus', c.get('segments'))}"
+def signature(c): return (c['kind'] + str(c.get('seed', ''))) if c['kind'] in ('smoke', 'seeded_repeat') else f"{c['kind']} {c.get('hseed', c.get('which'))} {c.get('length', '')} {c.get('focus', c.get('segments'))}"
 def nontrivial(c): return c['kind'] != 'history' or c['length'] >= 8
-def tags(c): return [c['kind']] + (['fits>32'] if c.get('nfits', 2) > 32 else []) + ([] if c['kind'] in ('witness', 'smoke') else [f"focus:{c['focus']}", f"len:{c['length'] // 10 * 10}+"] if c['kind'] == 'history' else [f"segments:{c['segments']}"])
+def tags(c): return [c['kind']] + (['fits>32'] if c.get('nfits', 2) > 32 else []) + ([] if c['kind'] in ('witness', 'smoke', 'seeded_repeat') else [f"focus:{c['focus']}", f"len:{c['length'] // 10 * 10}+"] if c['kind'] == 'history' else [f"segments:{c['segments']}"])
 def shrink(c):
     if c['kind'] == 'history' and c['length'] > 1:
         for L in (c['length'] // 2, c['length'] - 1):
@@ -692,7 +692,42 @@ def _smoke(c):
     _refresh_unproven()
     return {'rows': out}
 
+def _seeded_repeat(c):
+    """every seeded stochastic model called twice with identical arguments (and once more after unrelated global-generator activity):
+    the results must be identical bit for bit, and the global generator untouched"""
+    lentil = vlib.import_lentil()
+    D = lentil.detector
+    yy, xx = np.mgrid[0:7, 0:9]
+    mask = ((yy - 3) ** 2 / 9.0 + (xx - 4) ** 2 / 16.0 <= 1).astype(float)
+    frame = np.round(np.abs(np.sin(yy + 1.7 * xx)) * 4000) / 4 + 1000.0
+    sd = c['seed']
+    calls = {
+        'detector.shot_noise(poisson)': lambda: D.shot_noise(frame, seed=sd),
+        'detector.shot_noise(gaussian)': lambda: D.shot_noise(frame, method='gaussian', seed=sd),
+        'detector.read_noise': lambda: D.read_noise(frame, 7.5, seed=sd),
+        'detector.dark_current(fpn)': lambda: D.dark_current(150.0, (6, 5), fpn_factor=0.3, seed=sd),
+        'detector.rule07_dark_current(fpn)': lambda: D.rule07_dark_current(110.0, 5.3e-6, 18e-6, shape=(6, 5), fpn_factor=0.3, seed=sd),
+        'wfe.power_spectrum': lambda: lentil.power_spectrum(mask, 1e-3, 5e-8, 3.0, 3.0, seed=sd),
+    }
+    out = []
+    for name, f in calls.items():
+        g0 = np.random.get_state()[1].tobytes()
+        try:
+            with warnings.catch_warnings():
+                warnings.simplefilter('ignore')
+                a = f(); b = f()
+                np.random.uniform(size=3)            # unrelated activity on the global generator in between
+                g1 = np.random.get_state()[1].tobytes()
+                d = f()
+                g2 = np.random.get_state()[1].tobytes()
+            out.append({'fn': name, 'same': bool(np.array_equal(a, b) and np.array_equal(a, d)), 'ndiff': int(np.sum(np.asarray(a) != np.asarray(b))),
+                        'size': int(np.size(a)), 'rng_touched': bool(g1 != g2)})
+        except Exception as e:
+            out.append({'fn': name, 'exc': f'{type(e).__name__}: {e}'[:120]})
+    return {'calls': out}
+
 def impl(c):
+    if c['kind'] == 'seeded_repeat': return _seeded_repeat(c)
     if c['kind'] == 'smoke': return _smoke(c)
     if c['kind'] == 'witness': return _witness(c)
     if c['kind'] == 'confluence': return _confluence(c)
@@ -700,6 +735,7 @@ def impl(c):
 
 # ------------------------------------------------------------------------------------------ model
 def requests(c, io):
+    if c['kind'] == 'seeded_repeat': return []
     if c['kind'] == 'smoke': return [{'op': 'heap.rows', 'fns': [r['fn'] for r in io['rows']]}]
     if c['kind'] != 'history': return []
     ops = [{'fn': s['fn'], 'bind': s['bind'], 'res': s['res'], **({'inplace': s['inplace_flag']} if s.get('inplace_flag') is not None else {})}
@@ -735,6 +771,13 @@ SMOKE_INPLACE = {('field.insert', 'out'), ('wavefront.Wavefront.insert', 'out'),
 SMOKE_EDIT = ('radiometry.Spectrum.', 'radiometry.Material.')       # the documented editing methods / setters change `self`
 
 def oracle(c, io):
+    if c['kind'] == 'seeded_repeat':
+        for r in io['calls']:
+            if 'exc' in r: return f"{r['fn']} with seed={c['seed']} raised {r['exc']}"
+            if not r['same']: return (f"repeating {r['fn']} with identical arguments and seed={c['seed']} gave a different result "
+                                      f"({r['ndiff']} of {r['size']} pixels differ): the result does not depend only on the arguments")
+            if r['rng_touched']: return f"{r['fn']} with seed={c['seed']} read or advanced the global random state"
+        return None
     if c['kind'] == 'smoke':
         for r in io['rows']:
             for k in r.get('changed', []):
